@@ -15,6 +15,20 @@ pub struct Hop {
     pub pool: u64,
     pub din: u8,
     pub dout: u8,
+    /// free-form spelling that replaces `DENOMS[din]` / `DENOMS[dout]` (denoms may legally contain
+    /// `/ : . _ -`, so a hop can be spelled to look like the concatenation of two allow-listed hops)
+    #[serde(default, skip_serializing_if = "Option::is_none")]
+    pub din_x: Option<String>,
+    #[serde(default, skip_serializing_if = "Option::is_none")]
+    pub dout_x: Option<String>,
+}
+
+fn hin(h: &Hop) -> &str {
+    h.din_x.as_deref().unwrap_or_else(|| dn(h.din))
+}
+
+fn hout(h: &Hop) -> &str {
+    h.dout_x.as_deref().unwrap_or_else(|| dn(h.dout))
 }
 
 #[derive(Serialize, Deserialize, Clone, Debug, PartialEq)]
@@ -50,13 +64,13 @@ fn dn(i: u8) -> &'static str {
 }
 
 fn routes_json(r: &[Vec<Hop>]) -> Value {
-    json!(r.iter().map(|rt| rt.iter().map(|h| json!({"pool_id": h.pool, "token_in_denom": dn(h.din), "token_out_denom": dn(h.dout)})).collect::<Vec<_>>()).collect::<Vec<_>>())
+    json!(r.iter().map(|rt| rt.iter().map(|h| json!({"pool_id": h.pool, "token_in_denom": hin(h), "token_out_denom": hout(h)})).collect::<Vec<_>>()).collect::<Vec<_>>())
 }
 
 fn gen_route(rng: &mut Rng) -> Vec<Hop> {
     // an allow-list may (pointlessly but legally) contain an empty route
     let n = if rng.chance(1, 12) { 0 } else { rng.range(1, 4) };
-    (0..n).map(|_| Hop { pool: *rng.pick(&[0u64, 1, 2, 7, 1000, u64::MAX]), din: rng.below(5) as u8, dout: rng.below(5) as u8 }).collect()
+    (0..n).map(|_| Hop { pool: *rng.pick(&[0u64, 1, 2, 7, 1000, u64::MAX]), din: rng.below(5) as u8, dout: rng.below(5) as u8, din_x: None, dout_x: None }).collect()
 }
 
 fn derive_route(rng: &mut Rng, list: &[Vec<Hop>]) -> Vec<Hop> {
@@ -64,7 +78,27 @@ fn derive_route(rng: &mut Rng, list: &[Vec<Hop>]) -> Vec<Hop> {
         return if rng.chance(1, 3) { vec![] } else { gen_route(rng) };
     }
     let a = rng.pick(list).clone();
-    match rng.below(9) {
+    let plain = a.iter().all(|h| h.din_x.is_none() && h.dout_x.is_none());
+    match rng.below(10) {
+        9 if a.len() >= 2 && plain => {
+            // two consecutive allow-listed hops spelled as ONE hop: the second hop's pool and denoms are
+            // folded into a denom string with a separator that is legal inside denoms (only plain hops
+            // are folded, so spellings never nest and stay short)
+            let i = rng.below(a.len() as u64 - 1) as usize;
+            let sep = *rng.pick(&["/", "/", "/", ":", ".", "_", "-"]);
+            let (h1, h2) = (a[i].clone(), a[i + 1].clone());
+            let mut m = h1.clone();
+            m.dout = h2.dout;
+            if rng.chance(1, 2) {
+                m.dout_x = Some(format!("{}{sep}{}{sep}{}{sep}{}", hout(&h1), h2.pool, hin(&h2), hout(&h2)));
+            } else {
+                m.din_x = Some(format!("{}{sep}{}{sep}{}{sep}{}", hin(&h1), hout(&h1), h2.pool, hin(&h2)));
+            }
+            let mut b = a[..i].to_vec();
+            b.push(m);
+            b.extend_from_slice(&a[i + 2..]);
+            b
+        }
         0..=3 => a,
         4 => a[..rng.below(a.len() as u64) as usize].to_vec(),
         5 => a[rng.below(a.len() as u64) as usize..].to_vec(),
@@ -259,7 +293,7 @@ pub fn eval(c: &TCase) -> Eval {
             }
             TOp::Swap { who, exact_in, route, denom, amount, limit } => {
                 let sender = who_addr(&m, *who);
-                let rj = json!(route.iter().map(|h| json!({"pool_id": h.pool, "token_in_denom": dn(h.din), "token_out_denom": dn(h.dout)})).collect::<Vec<_>>());
+                let rj = json!(route.iter().map(|h| json!({"pool_id": h.pool, "token_in_denom": hin(h), "token_out_denom": hout(h)})).collect::<Vec<_>>());
                 let coin = json!({"denom": dn(*denom), "amount": amount.to_string()});
                 let msg = if *exact_in { json!({"swap_exact_amount_in": {"routes": rj, "token_in": coin, "token_out_min_amount": limit.to_string()}}) } else { json!({"swap_exact_amount_out": {"routes": rj, "token_out": coin, "token_in_max_amount": limit.to_string()}}) };
                 // serde_json prints u128 above u64 only with arbitrary precision: build the limit by hand
@@ -269,9 +303,9 @@ pub fn eval(c: &TCase) -> Eval {
                 let is_trader = sender == m.trader;
                 let listed = !route.is_empty() && m.routes.iter().any(|r| r == route);
                 // equality on denoms by value (two denom indices may name the same string only if equal mod len)
-                let listed_by_value = !route.is_empty() && m.routes.iter().any(|r| r.len() == route.len() && r.iter().zip(route.iter()).all(|(a, b)| a.pool == b.pool && dn(a.din) == dn(b.din) && dn(a.dout) == dn(b.dout)));
+                let listed_by_value = !route.is_empty() && m.routes.iter().any(|r| r.len() == route.len() && r.iter().zip(route.iter()).all(|(a, b)| a.pool == b.pool && hin(a) == hin(b) && hout(a) == hout(b)));
                 let _ = listed;
-                let endpoint = !route.is_empty() && if *exact_in { dn(route[0].din) == dn(*denom) } else { dn(route[route.len() - 1].dout) == dn(*denom) };
+                let endpoint = !route.is_empty() && if *exact_in { hin(&route[0]) == dn(*denom) } else { hout(&route[route.len() - 1]) == dn(*denom) };
                 let pred = is_trader && listed_by_value && endpoint;
                 if res.ok {
                     ev.stats.tx_ok += 1;
@@ -284,7 +318,7 @@ pub fn eval(c: &TCase) -> Eval {
                     }
                     let swaps: Vec<&Effect> = res.effects.iter().filter(|e| matches!(e, Effect::Swap { .. })).collect();
                     let others = res.effects.iter().any(|e| !matches!(e, Effect::Swap { .. } | Effect::Exec { .. }));
-                    let want_routes: Vec<(u64, String)> = route.iter().map(|h| (h.pool, if *exact_in { dn(h.dout).to_string() } else { dn(h.din).to_string() })).collect();
+                    let want_routes: Vec<(u64, String)> = route.iter().map(|h| (h.pool, if *exact_in { hout(h).to_string() } else { hin(h).to_string() })).collect();
                     let good = match swaps.as_slice() {
                         [Effect::Swap { sender: s, exact_in: ei, routes, coin, limit: l }] => *s == t && *ei == *exact_in && *routes == want_routes && coin.0 == dn(*denom) && coin.1 == *amount && *l == limit.to_string(),
                         _ => false,
